@@ -24,7 +24,10 @@ def ws_rewrites(R, s):
     def repl(f):
         return "".join(f(i) if c == " " else c for i, c in enumerate(s))
     out = {"pad": "  " + s + " ", "pad-tab": "\t" + s + "\n", "double": s.replace(" ", "  "), "tab": s.replace(" ", "\t"), "newline": s.replace(" ", "\n"),
-           "nbsp": s.replace(" ", "\xa0"), "mixed": repl(lambda i: R.choice([" \t", "\xa0 ", " \n ", "\t\t", "  \xa0"])), "colon": s + ":", "colons": s + "::"}
+           "nbsp": s.replace(" ", "\xa0"), "mixed": repl(lambda i: R.choice([" \t", "\xa0 ", " \n ", "\t\t", "  \xa0"])), "colon": s + ":", "colons": s + "::",
+           # one-sided padding and the compositions of padding with the trailing colon
+           "pad-left": " \t" + s, "pad-right": s + "  ", "pad-right-nl": s + "\n", "pad-left-nbsp": "\xa0" + s,
+           "colon-pad-right": s + ": ", "colon-pad": " " + s + ":\t", "space-colon": s + " :", "space-colon-pad": s + " : "}
     return out
 
 
@@ -35,7 +38,7 @@ def subst_digits(s, zero):
 def spacing_sensitive(s):
     """strings on which dateparser's sanitising looks at exact spacing or which already end in a colon/whitespace: excluded, as DESIGN §6 C18 states"""
     import re
-    return bool(re.search(r",\sв|\d+\.\s?\d+\.\s?\d+\.|on:|:$", s)) or s != s.strip() or "  " in s or "\t" in s or "\n" in s
+    return False      # nothing is excluded any more (the two spacing-sensitive cleaning steps were repaired: see known_findings.json, fixed C18)
 
 
 def mk(s, lang):
@@ -47,6 +50,10 @@ def run(ctx):
     R = rng("c18")
     corp = [s for s in corpus() if not spacing_sensitive(s)]
     sel = R.sample(corp, 300 if tier == "quick" else len(corp))
+    # strings the cleaning steps look at closely (dotted d.m.y. forms, 'on:', ', в', 'г.', a dot before a space) are always in
+    import re
+    close = [s for s in corp if re.search(r"\d\.\s?\d+\.\s?\d+\.|on:|,\sв|г\.|\.\s", s)]
+    sel = sel + [s for s in R.sample(close, min(len(close), 80)) if s not in sel]
     det = pmap(lib_gdd, [{"s": s, "langs": LK, "settings": {"RELATIVE_BASE": BASE, "TIMEZONE": "UTC"}} for s in sel])
     items = [(s, d["r"].rsplit("|", 1)[1]) for s, d in zip(sel, det) if d.get("r")]
     # generated dates in every language
@@ -59,6 +66,9 @@ def run(ctx):
                 continue
             items.append(("%d %s %d" % (R.randint(1, 28), mname, R.choice([1987, 2015, 2024])), r["name"]))
         items.append(("%02d.%02d.%d %02d:%02d" % (R.randint(1, 12), R.randint(13, 28), 2015, R.randint(0, 23), R.randint(0, 59)), r["name"]))
+    for lang in ("hr", "sr-Latn", "bs", "sl", "en"):
+        items.append(("%d. %d. %d. u %02d:%02d" % (R.randint(13, 28), R.randint(1, 12), 2019, R.randint(0, 23), R.randint(0, 59)), lang))
+        items.append(("%d.%02d.%d. u %02d:%02d" % (R.randint(13, 28), R.randint(1, 12), 2022, R.randint(0, 23), R.randint(0, 59)), lang))
     zeros = nd_blocks()
     zsel = zeros if tier != "quick" else R.sample(zeros, 8) + [0x660, 0x6F0, 0x966, 0xFF10]
     cases = []
@@ -115,4 +125,4 @@ def run(ctx):
            "model_compared": len(sub) if "model-build" not in ctx["broken"] else 0, "model_rejected": dict(rej), "model_drift": len(drift),
            "model_drift_samples": [{"s": d["case"]["s"], "model": d["model"], "lib": d["lib"]} for d in drift[:5]]}
     return {"violations": out, "known": ["%s x%d" % (k, n) for k, n in kh.items()], "coverage": cov, "level": "proof",
-            "assumptions": ["strings on which sanitising inspects exact spacing (', в', 'd.d.d.', 'on:') or that already end in a colon are excluded and counted"]}
+            "assumptions": ["no corpus string is excluded"]}
